@@ -515,7 +515,8 @@ def snippetguard(repo):
         lines_vars = set()
         for n in walk_no_nested_funcs(f.node):
             if isinstance(n, ast.Assign) and isinstance(n.targets[0], ast.Name) and isinstance(n.value, ast.Call) \
-                    and isinstance(n.value.func, ast.Attribute) and n.value.func.attr in ("splitlines", "split"):
+                    and ((isinstance(n.value.func, ast.Attribute) and n.value.func.attr in ("splitlines", "split", "split_lines"))
+                         or (isinstance(n.value.func, ast.Name) and "split" in n.value.func.id)):
                 lines_vars.add(n.targets[0].id)
         for n in walk_no_nested_funcs(f.node):
             if isinstance(n, ast.Subscript) and isinstance(n.value, ast.Name) and n.value.id in lines_vars \
